@@ -222,15 +222,11 @@ class Memory:
             for j in range(n): o.cells[off + j] = (1, iv(8, byte))
 
     def cstr(s, st, p, limit=256):
-        o = st.mem[p[1]]; out = ''; off = p[2]
+        out = ''; off = p[2]
         while len(out) < limit:
-            c = o.cells.get(off)
-            if c is None:
-                if any(a <= off < b for a, b in o.zero): return out
-                raise Unsupported('cstr: no byte at %s+%d' % (o.name, off))
-            b = c[1][2]
-            if not isinstance(b, int): raise Unsupported('cstr: symbolic byte')
-            b &= 0xff
-            if b == 0: return out
-            out += chr(b); off += 1
+            b = s.load(st, INT8, ('p', p[1], off))
+            if not isinstance(b[2], int): raise Unsupported('cstr: symbolic byte')
+            c = b[2] & 0xff
+            if c == 0: return out
+            out += chr(c); off += 1
         return out
